@@ -1389,7 +1389,7 @@ def _perm_frame(rng):
     return dB, dC
 
 
-def _axis_world(rng):
+def _axis_world(rng, i=None):
     """exact geometry at the singular places: systems whose transform is a signed permutation matrix and whose
     origin is an integer point (one rectangular system optionally in between), grids exactly on the polar axis of
     a cylindrical / spherical system (entered in that system, or in basic at the integer point) and grids at
@@ -1402,7 +1402,7 @@ def _axis_world(rng):
         dB, dC = _perm_frame(rng)
         cs.append({"id": ids[0], "typ": 1, "ref": 0, "A": A, "B": [a + d for a, d in zip(A, dB)],
                    "C": [a + d for a, d in zip(A, dC)]})
-    for typ in rng.sample([2, 3], rng.randint(1, 2)):
+    for typ in (rng.sample([2, 3], rng.randint(1, 2)) if i is None else rng.sample([2, 3], 2)):
         ref = len(cs) if cs and cs[-1]["typ"] == 1 and rng.random() < 0.6 else 0
         if ref and cs[ref - 1]["typ"] != 1:
             ref = 0
@@ -1416,14 +1416,17 @@ def _axis_world(rng):
     gids = rng.sample(range(1, 5000), 9)
     entries = []
     kinds = ["axis-in", "axis-basic", "quarter-basic", "quarter-in", "axis-basic", "quarter-basic", "origin", "free"]
-    rng.shuffle(kinds)
-    for j, kind in enumerate(kinds[: rng.randint(5, 8)]):
-        k = rng.choice(polar)
+    if i is None:
+        rng.shuffle(kinds)
+        kinds = kinds[: rng.randint(5, 8)]
+    for j, kind in enumerate(kinds):
+        # with a world number every (system type, kind, quarter) combination comes round deterministically
+        k = rng.choice(polar) if i is None else polar[(i + j + j // 4) % 2]
         typ, o, T = infos[k]
         Ti = np.rint(T)
         r = float(rng.randint(1, 12))
         z = float(rng.choice([-7, -2, 3, 5, 11]))
-        q = rng.randrange(4)
+        q = rng.randrange(4) if i is None else (i // 2 + j) % 4
         cq, sq = [(1, 0), (0, 1), (-1, 0), (0, -1)][q]
         e = {"kind": "grid", "id": gids[j], "nasset": "b", "cout": k}
         if kind == "axis-in":
@@ -1546,7 +1549,7 @@ def correspondence(ctx):
     for i in range(ctx.pick(30, 300)):
         worlds.append(_floatify(_boundary_world(rng)))
     for i in range(ctx.pick(24, 240)):
-        worlds.append(_floatify(_axis_world(rng)))
+        worlds.append(_floatify(_axis_world(rng, i)))
     for w in worlds:
         _plan_world(ctx, rng, w, items)
     for i in range(ctx.pick(90, 1000)):
@@ -1555,8 +1558,14 @@ def correspondence(ctx):
     for i in range(ctx.pick(150, 1500)):
         w = _gen_world(rng, N=rng.randint(0, 4), G=rng.randint(4, 7), plain=True)
         _plan_rbe3(ctx, rng, w, items, kind=UM_KINDS[i % len(UM_KINDS)])
-    for i in range(ctx.pick(144, 1440)):
-        _plan_rbe3w(ctx, rng, items, W_KINDS[i % len(W_KINDS)])
+    for kind in W_KINDS:
+        # a fixed number of cases per kind (cases outside the conditioning domain are skipped, counted and redrawn)
+        want, tries = ctx.pick(11, 110), 0
+        while want > 0 and tries < 40 * ctx.pick(11, 110):
+            n0 = len(items)
+            _plan_rbe3w(ctx, rng, items, kind)
+            want -= len(items) - n0
+            tries += 1
     for i in range(ctx.pick(250, 2500)):
         _plan_bc(ctx, rng, items)
     for i in range(ctx.pick(120, 1200)):
